@@ -5,6 +5,9 @@
   written Rust impl: `coords_count` is arithmetic, `coords_iter` is the traversal, …).
 -/
 import GeoModel.Traverse
+import GeoProofs.Props.C18
+import Mathlib.Tactic.Linarith
+import Mathlib.Tactic.NormNum
 
 namespace Geo.Proofs.C19
 open Geo
@@ -39,5 +42,278 @@ theorem count_eq_length_list : ∀ gs : List Geom, coordsCountList gs = (coordsI
   | g :: gs => by
       simp [coordsCountList, coordsIterList, count_eq_length g, count_eq_length_list gs]
 end
+
+/-! ## 1. `exterior_coords_iter` is a sub-sequence of `coords_iter` -/
+
+private theorem poly_ext_sublist (p : Poly) : p.ext.Sublist p.coords :=
+  List.sublist_append_left _ _
+
+private theorem mpoly_ext_sublist :
+    ∀ ps : List Poly, ((ps.map Poly.ext).flatten).Sublist ((ps.map Poly.coords).flatten)
+  | [] => List.Sublist.refl _
+  | p :: ps => by
+      simp only [List.map_cons, List.flatten_cons]
+      exact List.Sublist.append (poly_ext_sublist p) (mpoly_ext_sublist ps)
+
+mutual
+/-- [T] `exterior_coords_iter` yields a sub-sequence (same order, nothing new) of what
+`coords_iter` yields, for every geometry. -/
+theorem exterior_sublist : ∀ g : Geom, (exteriorCoords g).Sublist (coordsIter g)
+  | .point _ => List.Sublist.refl _
+  | .line _ _ => List.Sublist.refl _
+  | .lineString _ => List.Sublist.refl _
+  | .polygon p => by simp only [exteriorCoords, coordsIter]; exact poly_ext_sublist p
+  | .multiPoint _ => List.Sublist.refl _
+  | .multiLineString _ => List.Sublist.refl _
+  | .multiPolygon ps => by simp only [exteriorCoords, coordsIter]; exact mpoly_ext_sublist ps
+  | .rect _ _ => List.Sublist.refl _
+  | .triangle _ _ _ => List.Sublist.refl _
+  | .collection gs => by simp only [exteriorCoords, coordsIter]; exact exterior_sublist_list gs
+theorem exterior_sublist_list :
+    ∀ gs : List Geom, (exteriorCoordsList gs).Sublist (coordsIterList gs)
+  | [] => List.Sublist.refl _
+  | g :: gs => by
+      simp only [exteriorCoordsList, coordsIterList]
+      exact List.Sublist.append (exterior_sublist g) (exterior_sublist_list gs)
+end
+
+/-- A polygon without interior coordinates (no holes, or only empty hole rings). -/
+def polyNoInteriors (p : Poly) : Bool := p.ints.all List.isEmpty
+
+mutual
+/-- No `Polygon` / `MultiPolygon` member has an interior ring with coordinates. -/
+def noInteriors : Geom → Bool
+  | .polygon p => polyNoInteriors p
+  | .multiPolygon ps => ps.all polyNoInteriors
+  | .collection gs => noInteriorsList gs
+  | .point _ | .line _ _ | .lineString _ | .multiPoint _ | .multiLineString _
+  | .rect _ _ | .triangle _ _ _ => true
+def noInteriorsList : List Geom → Bool
+  | [] => true
+  | g :: gs => noInteriors g && noInteriorsList gs
+end
+
+mutual
+/-- No `Polygon` member and no non-empty `MultiPolygon` member anywhere in the tree. -/
+def noPolygons : Geom → Bool
+  | .polygon _ => false
+  | .multiPolygon ps => ps.isEmpty
+  | .collection gs => noPolygonsList gs
+  | .point _ | .line _ _ | .lineString _ | .multiPoint _ | .multiLineString _
+  | .rect _ _ | .triangle _ _ _ => true
+def noPolygonsList : List Geom → Bool
+  | [] => true
+  | g :: gs => noPolygons g && noPolygonsList gs
+end
+
+private theorem flatten_all_isEmpty (ls : List (List Pt)) (h : ls.all List.isEmpty = true) :
+    ls.flatten = [] := by
+  induction ls with
+  | nil => rfl
+  | cons a t ih =>
+    simp only [List.all_cons, Bool.and_eq_true, List.isEmpty_iff] at h
+    simp [h.1, ih h.2]
+
+private theorem poly_coords_of_noInteriors (p : Poly) (h : polyNoInteriors p = true) :
+    p.coords = p.ext := by
+  simp [Poly.coords, flatten_all_isEmpty p.ints (by simpa [polyNoInteriors] using h)]
+
+mutual
+/-- [T] for geometries whose polygons carry no interior coordinates the exterior traversal
+*is* the traversal. -/
+theorem exterior_eq_of_noInteriors :
+    ∀ g : Geom, noInteriors g = true → exteriorCoords g = coordsIter g
+  | .point _, _ => rfl
+  | .line _ _, _ => rfl
+  | .lineString _, _ => rfl
+  | .polygon p, h => by
+      simp only [noInteriors] at h
+      simp only [exteriorCoords, coordsIter, poly_coords_of_noInteriors p h]
+  | .multiPoint _, _ => rfl
+  | .multiLineString _, _ => rfl
+  | .multiPolygon ps, h => by
+      simp only [noInteriors, List.all_eq_true] at h
+      simp only [exteriorCoords, coordsIter]
+      congr 1
+      apply List.map_congr_left
+      intro p hp
+      exact (poly_coords_of_noInteriors p (h p hp)).symm
+  | .rect _ _, _ => rfl
+  | .triangle _ _ _, _ => rfl
+  | .collection gs, h => by
+      simp only [noInteriors] at h
+      simp only [exteriorCoords, coordsIter]; exact exterior_eq_of_noInteriors_list gs h
+theorem exterior_eq_of_noInteriors_list :
+    ∀ gs : List Geom, noInteriorsList gs = true → exteriorCoordsList gs = coordsIterList gs
+  | [], _ => rfl
+  | g :: gs, h => by
+      simp only [noInteriorsList, Bool.and_eq_true] at h
+      simp only [exteriorCoordsList, coordsIterList, exterior_eq_of_noInteriors g h.1,
+        exterior_eq_of_noInteriors_list gs h.2]
+end
+
+mutual
+private theorem noInteriors_of_noPolygons : ∀ g : Geom, noPolygons g = true → noInteriors g = true
+  | .point _, _ => rfl
+  | .line _ _, _ => rfl
+  | .lineString _, _ => rfl
+  | .polygon p, h => by simp [noPolygons] at h
+  | .multiPoint _, _ => rfl
+  | .multiLineString _, _ => rfl
+  | .multiPolygon ps, h => by
+      simp only [noPolygons, List.isEmpty_iff] at h
+      subst h; rfl
+  | .rect _ _, _ => rfl
+  | .triangle _ _ _, _ => rfl
+  | .collection gs, h => by
+      simp only [noPolygons] at h
+      simp only [noInteriors]; exact noInteriors_of_noPolygons_list gs h
+private theorem noInteriors_of_noPolygons_list :
+    ∀ gs : List Geom, noPolygonsList gs = true → noInteriorsList gs = true
+  | [], _ => rfl
+  | g :: gs, h => by
+      simp only [noPolygonsList, Bool.and_eq_true] at h
+      simp only [noInteriorsList, Bool.and_eq_true]
+      exact ⟨noInteriors_of_noPolygons g h.1, noInteriors_of_noPolygons_list gs h.2⟩
+end
+
+/-- [T] for geometries without polygons the exterior traversal *is* the traversal. -/
+theorem exterior_eq_of_noPolygons (g : Geom) (h : noPolygons g = true) :
+    exteriorCoords g = coordsIter g :=
+  exterior_eq_of_noInteriors g (noInteriors_of_noPolygons g h)
+
+example : exteriorCoords (.collection [.lineString [⟨0, 0⟩, ⟨1, 2⟩], .collection [.rect ⟨0, 0⟩ ⟨3, 4⟩]])
+    = coordsIter (.collection [.lineString [⟨0, 0⟩, ⟨1, 2⟩], .collection [.rect ⟨0, 0⟩ ⟨3, 4⟩]]) :=
+  exterior_eq_of_noPolygons _ (by decide)
+
+example : exteriorCoords (.polygon ⟨[⟨0, 0⟩, ⟨1, 2⟩, ⟨5, 0⟩, ⟨0, 0⟩], [[]]⟩)
+    = coordsIter (.polygon ⟨[⟨0, 0⟩, ⟨1, 2⟩, ⟨5, 0⟩, ⟨0, 0⟩], [[]]⟩) :=
+  exterior_eq_of_noInteriors _ (by decide)
+
+/-! ## 2. `lines_iter` yields the consecutive coordinate pairs -/
+
+/-- [T] `windows(2)` is the list of consecutive pairs. -/
+theorem windows2_eq_zip : ∀ cs : List Pt, windows2 cs = cs.zip cs.tail
+  | [] => rfl
+  | [_] => rfl
+  | a :: b :: rest => by
+      simp only [windows2, List.tail_cons, List.zip_cons_cons]
+      rw [windows2_eq_zip (b :: rest)]; rfl
+
+/-- [T] there is one line less than there are coordinates (none for 0 or 1 coordinates). -/
+theorem windows2_length (cs : List Pt) : (windows2 cs).length = cs.length - 1 := by
+  rw [windows2_eq_zip, List.length_zip, List.length_tail]; omega
+
+/-- [T] the i-th line joins the i-th and (i+1)-th coordinate. -/
+theorem windows2_getElem? : ∀ (cs : List Pt) (i : Nat),
+    (windows2 cs)[i]? = (match cs[i]?, cs[i + 1]? with
+      | some a, some b => some (a, b)
+      | _, _ => none)
+  | [], i => by simp [windows2]
+  | [a], i => by cases i <;> simp [windows2]
+  | a :: b :: rest, 0 => by simp [windows2]
+  | a :: b :: rest, i + 1 => by
+      have := windows2_getElem? (b :: rest) i
+      simpa [windows2] using this
+
+theorem mem_windows2 {cs : List Pt} {l : Pt × Pt} (h : l ∈ windows2 cs) : l.1 ∈ cs ∧ l.2 ∈ cs := by
+  rw [windows2_eq_zip] at h
+  obtain ⟨a, b⟩ := l
+  have := List.of_mem_zip h
+  exact ⟨this.1, List.mem_of_mem_tail this.2⟩
+
+private theorem mem_rings_lines {ls : List (List Pt)} {l : Pt × Pt}
+    (h : l ∈ (ls.map windows2).flatten) : l.1 ∈ ls.flatten ∧ l.2 ∈ ls.flatten := by
+  simp only [List.mem_flatten, List.mem_map] at h
+  obtain ⟨_, ⟨r, hr, rfl⟩, hl⟩ := h
+  have := mem_windows2 hl
+  exact ⟨List.mem_flatten.2 ⟨r, hr, this.1⟩, List.mem_flatten.2 ⟨r, hr, this.2⟩⟩
+
+private theorem mem_poly_lines {p : Poly} {l : Pt × Pt} (h : l ∈ p.lines) :
+    l.1 ∈ p.coords ∧ l.2 ∈ p.coords := by
+  simp only [Poly.lines, List.mem_append] at h
+  simp only [Poly.coords, List.mem_append]
+  rcases h with h | h
+  · exact ⟨Or.inl (mem_windows2 h).1, Or.inl (mem_windows2 h).2⟩
+  · exact ⟨Or.inr (mem_rings_lines h).1, Or.inr (mem_rings_lines h).2⟩
+
+/-- [T] `lines_iter` of the linear types is literally the consecutive pairs of each linear
+component (ring / line string), in component order. -/
+theorem lines_pairs_lineString (cs : List Pt) : linesIter (.lineString cs) = some (cs.zip cs.tail) := by
+  simp [linesIter, windows2_eq_zip]
+
+theorem lines_pairs_multiLineString (ls : List (List Pt)) :
+    linesIter (.multiLineString ls) = some ((ls.map fun cs => cs.zip cs.tail).flatten) := by
+  simp only [linesIter]
+  congr 2
+  exact List.map_congr_left fun cs _ => windows2_eq_zip cs
+
+theorem lines_pairs_polygon (p : Poly) :
+    linesIter (.polygon p) =
+      some (p.ext.zip p.ext.tail ++ (p.ints.map fun cs => cs.zip cs.tail).flatten) := by
+  simp only [linesIter, Poly.lines, windows2_eq_zip]
+  congr 3
+  exact List.map_congr_left fun cs _ => windows2_eq_zip cs
+
+theorem lines_pairs_multiPolygon (ps : List Poly) :
+    linesIter (.multiPolygon ps) =
+      some ((ps.map fun p => p.ext.zip p.ext.tail ++ (p.ints.map fun cs => cs.zip cs.tail).flatten).flatten) := by
+  simp only [linesIter]
+  congr 2
+  apply List.map_congr_left
+  intro p _
+  have := lines_pairs_polygon p
+  simp only [linesIter, Option.some.injEq] at this
+  exact this
+
+/-- [T] the number of lines: one less than the coordinates of every linear component. -/
+theorem lines_count_polygon (p : Poly) :
+    p.lines.length = (p.ext.length - 1) + ((p.ints.map fun r => r.length - 1).sum) := by
+  simp only [Poly.lines, List.length_append, windows2_length, List.length_flatten, List.map_map]
+  congr 2
+  exact List.map_congr_left fun r _ => windows2_length r
+
+/-- [T] every line that `lines_iter` yields has both end points among the coordinates that
+`coords_iter` yields (all seven types implementing `LinesIter`, Rect and Triangle included). -/
+theorem lines_endpoints (g : Geom) (ls : List (Pt × Pt)) (h : linesIter g = some ls) :
+    ∀ l ∈ ls, l.1 ∈ coordsIter g ∧ l.2 ∈ coordsIter g := by
+  intro l hl
+  cases g with
+  | point _ => simp [linesIter] at h
+  | multiPoint _ => simp [linesIter] at h
+  | collection _ => simp [linesIter] at h
+  | line a b =>
+    simp only [linesIter, Option.some.injEq] at h; subst h
+    simp only [List.mem_singleton] at hl; subst hl
+    simp [coordsIter]
+  | lineString cs =>
+    simp only [linesIter, Option.some.injEq] at h; subst h
+    exact mem_windows2 hl
+  | multiLineString rs =>
+    simp only [linesIter, Option.some.injEq] at h; subst h
+    exact mem_rings_lines hl
+  | polygon p =>
+    simp only [linesIter, Option.some.injEq] at h; subst h
+    exact mem_poly_lines hl
+  | multiPolygon ps =>
+    simp only [linesIter, Option.some.injEq] at h; subst h
+    simp only [List.mem_flatten, List.mem_map] at hl
+    obtain ⟨_, ⟨p, hp, rfl⟩, hl⟩ := hl
+    have := mem_poly_lines hl
+    simp only [coordsIter, List.mem_flatten, List.mem_map]
+    exact ⟨⟨_, ⟨p, hp, rfl⟩, this.1⟩, ⟨_, ⟨p, hp, rfl⟩, this.2⟩⟩
+  | rect mn mx =>
+    simp only [linesIter, Option.some.injEq] at h; subst h
+    simp only [SM.rectToLines, List.mem_cons, List.not_mem_nil, or_false] at hl
+    rcases hl with rfl | rfl | rfl | rfl <;> simp [coordsIter, rectCoords]
+  | triangle a b c =>
+    simp only [linesIter, Option.some.injEq] at h; subst h
+    simp only [List.mem_cons, List.not_mem_nil, or_false] at hl
+    rcases hl with rfl | rfl | rfl <;> simp [coordsIter]
+
+example : ∀ l ∈ [((⟨0, 0⟩ : Pt), (⟨1, 2⟩ : Pt)), (⟨1, 2⟩, ⟨5, 0⟩)],
+    l.1 ∈ coordsIter (.lineString [⟨0, 0⟩, ⟨1, 2⟩, ⟨5, 0⟩]) ∧
+    l.2 ∈ coordsIter (.lineString [⟨0, 0⟩, ⟨1, 2⟩, ⟨5, 0⟩]) :=
+  lines_endpoints _ _ rfl
 
 end Geo.Proofs.C19
